@@ -27,7 +27,10 @@ RULE = ('texts: grammar scripts and char soup sprinkled with non-ASCII '
         '"-" input, stdout and -o output, every flag the parser accepts, '
         'now and then 5-40 KB inputs full of multi-byte characters, '
         'every encoding) and `python -m sqlparse` subprocesses for a sample; '
-        'expected = format(decoded text, mapped options). '
+        'expected = format(decoded text, mapped options). Also: texts whose '
+        'UTF-8 form has a multi-byte character across byte 512 ... 65536, '
+        'BOM-first texts, and a for-loop over parsestream() that calls '
+        'format()/split() for every statement it receives. '
         'distinct_nontrivial = distinct (form/encoding/channel, option set) '
         'combinations observed on non-ASCII or CR-carrying texts')
 ASSUMPTIONS = [
